@@ -10,6 +10,7 @@ import (
 	"time"
 
 	"github.com/cnotch/ipchub/stats"
+	"github.com/cnotch/ipchub/utils/vhook"
 	"github.com/cnotch/queue"
 	"github.com/cnotch/xlog"
 )
@@ -47,6 +48,7 @@ func (c *consumption) Close() error {
 	}
 
 	c.closed = true
+	vhook.At("close.flag", c)
 	c.recvQueue.Signal()
 	return nil
 }
@@ -86,8 +88,10 @@ func (c *consumption) consume() {
 		}
 
 		// 停止消费
+		vhook.At("exit.begin", c)
 		c.stream.StopConsume(c.cid)
 		c.consumer.Close()
+		vhook.At("exit.done", c)
 
 		// 尽早通知GC，回收内存
 		c.recvQueue.Reset()
@@ -95,7 +99,9 @@ func (c *consumption) consume() {
 	}()
 
 	for !c.closed {
+		vhook.At("loop.checked", c)
 		p := c.recvQueue.Pop()
+		vhook.At("loop.popped", c)
 		if p == nil {
 			if !c.closed {
 				c.logger.Warn("receive nil pack")
